@@ -20,7 +20,8 @@
 //! Failure signatures name the root cause where the text shows it, the artifact kind otherwise:
 //! `ts-syntax:comment-terminator-in-description`, `ts-syntax:unescaped-quote-in-query-text`,
 //! `ts-syntax:line-terminator-in-string:<kind>`, `ts-syntax:generated-file-header`,
-//! `ts-syntax:<kind>`, `duplicate-binding:<kind>`, `json-syntax:generated-file-header`,
+//! `ts-syntax:<kind>`, `duplicate-binding:underscore-name-collision` (declarations `A.b__c` and
+//! `A__b.c` share every generated identifier), `duplicate-binding:<kind>`, `json-syntax:generated-file-header`,
 //! `json-syntax:<kind>`, `import-missing-extension:<kind>`, `import-unresolved:<kind>`,
 //! `import-outside-missing:<kind>`.
 
@@ -116,8 +117,17 @@ pub fn check_c13_all(set: &ArtifactSet, opts: &C13Options) -> (C13Stats, Vec<Fai
         }
         for issue in &m.issues {
             if issue.starts_with("duplicate-binding:") {
+                // root cause, where the imports show it: two declarations `A.b__c` and `A__b.c`
+                // share every generated identifier `A__b__c__…`
+                let collision = m.imports.iter().enumerate().any(|(i, a)| {
+                    m.imports.iter().skip(i + 1).any(|b| {
+                        matches!((&a.target, &b.target), (Target::Inside(pa), Target::Inside(pb)) if pa != pb)
+                            && a.names.iter().any(|na| b.names.iter().any(|nb| na.local == nb.local && na.local.contains("__")))
+                    })
+                });
+                let cause = if collision { "underscore-name-collision".to_string() } else { file_kind(path) };
                 fails.push(Fail::new(
-                    format!("duplicate-binding:{}", file_kind(path)),
+                    format!("duplicate-binding:{cause}"),
                     format!("{path}: {issue} (SyntaxError in every JS engine: duplicate module-level declaration)"),
                 ));
             } else {
